@@ -72,9 +72,14 @@ def _h(x):
 
 
 def same_array(A, B):
+    """exact for integer/bool data; floats are compared up to rounding (the symbolic side proves exact equality over the reals)"""
     import numpy as np
     A, B = np.asarray(A), np.asarray(B)
-    return A.shape == B.shape and bool((A == B).all())
+    if A.shape != B.shape:
+        return False
+    if A.dtype.kind == 'f' or B.dtype.kind == 'f':
+        return bool(np.allclose(A.astype(float), B.astype(float), rtol=1e-7, atol=1e-9))
+    return bool((A == B).all())
 
 
 def is_int(x):
@@ -93,3 +98,40 @@ def count(*args):
     import itertools
     *dims, f = args
     return sum(1 for ix in itertools.product(*[range(int(d)) for d in dims]) if f(*ix))
+
+
+def matmul(a, b):
+    import numpy as np
+    return np.asarray(a) @ np.asarray(b)
+
+
+def inverse(a):
+    import numpy as np
+    return np.linalg.inv(np.asarray(a, dtype=float))
+
+
+def transpose(a):
+    import numpy as np
+    return np.asarray(a).T
+
+
+def nonsingular(a):
+    import numpy as np
+    a = np.asarray(a, dtype=float)
+    return a.shape[0] == a.shape[1] and (a.shape[0] == 0 or abs(np.linalg.det(a)) > 1e-12)
+
+
+def same_matrix(a, b, tol=1e-9):
+    import numpy as np
+    a, b = np.asarray(a, dtype=float), np.asarray(b, dtype=float)
+    return a.shape == b.shape and bool(np.allclose(a, b, rtol=tol, atol=tol))
+
+
+def ls_coefs(C, y, Xs):
+    import numpy as np
+    C = np.asarray(C, dtype=float)
+    Xs = np.atleast_1d(Xs).astype(int)
+    b = np.zeros(len(C))
+    if len(Xs):
+        b[Xs] = np.linalg.solve(C[np.ix_(Xs, Xs)], C[y, Xs])
+    return b
